@@ -48,6 +48,7 @@ TDevRemoveAtSize == /\ Ev.e = "RemoveArrayElement" /\ DevOn("RMSIZE")
                     /\ After(Ev.a, Ev.after)
                     /\ PrintT(<<"FIRED", "RMSIZE", Ev.i>>)
 TDuplicate == Ev.e = "Duplicate" /\ Duplicate(Ev.s, Ev.d, Ev.ok, Norm(Ev.got))
+TDuplicateSub == Ev.e = "DuplicateSub" /\ DuplicateSub(Ev.from = "obj", Ev.o, Ev.key, Ev.i, Ev.d, Ev.found, Ev.ok, Norm(Ev.got))
 TCompare == Ev.e = "Compare" /\ Compare(Ev.a, Ev.b, Ev.res)
 TSerialise == Ev.e = "Serialise" /\ Serialise(Ev.s, Ev.rc, Ev.pre, Ev.out)
 TParseText == Ev.e = "ParseText" /\ ParseText(Ev.s, Ev.text, Ev.ok, Norm(Ev.got))
@@ -57,7 +58,7 @@ TEnd == Ev.e = "End" /\ Ev.live = 0 /\ UNCHANGED jvars
 TNext == /\ l <= TraceLen /\ l' = l + 1
          /\ \/ TReset \/ TNew \/ TDestroy \/ TAddToObject \/ TGetFromObject \/ THasKey \/ TRemoveFromObject
             \/ TAddArrayElement \/ TGetArrayElement \/ TGetArraySize \/ TRemoveArrayElement \/ TDevRemoveAtSize
-            \/ TDuplicate \/ TCompare \/ TSerialise \/ TParseText \/ TRoundTrip \/ TEnd
+            \/ TDuplicate \/ TDuplicateSub \/ TCompare \/ TSerialise \/ TParseText \/ TRoundTrip \/ TEnd
 TInit == l = 1 /\ Init
 TSpec == TInit /\ [][TNext]_<<jvars, l>>
 =============================================================================
